@@ -30,7 +30,7 @@ Definition valid_sched (sched : datamap -> list nat) : Prop :=
   forall dm, Permutation (sched dm) (seq 0 (length dm)).
 
 Lemma store_lookup C st y :
-  good_store C st -> In (mk_chunk C y) st -> store_net C st (cH C y) = ROk (chunk_record y).
+  good_store C st -> In (mk_chunk C y) st -> store_net C st (cH C y) = ROk (chunk_record (cH C y) y).
 Proof.
   intros [GA GC] I. unfold store_net.
   destruct (find (fun c => k_addr c =? cH C y) st) as [c'|] eqn:F.
